@@ -7,5 +7,6 @@ CONSTANTS
  Defect_SharedBucketHandle = TRUE
  Defect_NoVersionCheck = TRUE
  AllowEvict = TRUE
+ Defect_ReaderUnlocked = FALSE
 INVARIANTS G_NoClosedBucketRead G_ReaderSnapshotConsistent G_CoherentWhenIdle
 CHECK_DEADLOCK FALSE
